@@ -368,8 +368,31 @@ def gen_case(rng, idx):
             "after": None, "top_eol": "\n", "topdir": rng.choice(["root", "root/in", "r"]),
             "top_mode": rng.choice(["abs", "abs", "rel"]), "idx": idx}
     names = list(files)
+    case["decoys"] = {}
+    # same-named decoys next to a sub-file that sits in a sub-directory and reads another file: a reader that resolved
+    # the name against that file's own directory (or the working directory) would load the decoy
+    for n, f in files.items():
+        d = posixpath.dirname(posixpath.normpath(n))
+        for it in f["items"]:
+            t = it.get("read")
+            if t and d and rng.random() < 0.6:
+                dk = posixpath.normpath(posixpath.join(d, t))
+                if dk not in used and not any(u.startswith(dk + "/") or dk.startswith(u + "/") for u in used):
+                    case["decoys"][dk] = "c decoy: this file must not be read\n"
+    if kind == "plain" and names and rng.random() < 0.3:
+        # one file read through two read cards of the data block: it is loaded once per read card
+        shared = fresh_name(rng, used)
+        files[shared] = {"items": [{"lines": [rng.choice(["ctme 5", "prdmp j 1", "print"])], "read": None}],
+                         "tail": [], "final_newline": True, "eol": "\n"}
+        holders = [top_blocks[2]] + [files[n]["items"] for n in names if block_of_file(case, n) == 2]
+        for _ in range(2):
+            h = rng.choice(holders)
+            h.insert(rng.randint(0, len(h)), {"lines": [f"read file={shared}"], "read": shared})
+        names = list(files)
     if kind == "missing" and names:
         case["missing"] = rng.choice(names)
+        # a file of that name in the working directory must not be taken instead
+        case["cwd_decoy"] = posixpath.normpath(case["missing"])
     elif kind == "badcard":
         tgt = rng.choice([top_blocks[rng.randrange(3)]] + [files[n]["items"] for n in names])
         tgt.insert(rng.randint(0, len(tgt)), {"lines": bad_read_card(rng, rng.choice(names) if names else "x.i"),
@@ -395,6 +418,14 @@ def gen_case(rng, idx):
     if kind not in ("missing", "badcard", "cycle", "innerblank") and rng.random() < 0.05:
         case["top_eol"] = "\r\n"
     return case
+
+
+def block_of_file(case, name):
+    """block type with which the file is (first) read"""
+    for b, n in bfs_items(case):
+        if n == name:
+            return b
+    return None
 
 
 def ancestors(case, name):
@@ -524,6 +555,18 @@ def materialise(case, base):
             os.makedirs(os.path.normpath("/".join(parts[:k])), exist_ok=True) if ".." not in parts[k - 1:k] else None
         with open(p, "w", newline="") as f:
             f.write(file_text(fl))
+    for dk, text in (case.get("decoys") or {}).items():
+        p = os.path.join(root, dk)
+        if not os.path.exists(p):
+            os.makedirs(os.path.dirname(p), exist_ok=True)
+            with open(p, "w", newline="") as f:
+                f.write(text)
+    if case.get("cwd_decoy"):
+        for wd in (cwd, cwd2):
+            p = os.path.join(wd, case["cwd_decoy"])
+            os.makedirs(os.path.dirname(p), exist_ok=True)
+            with open(p, "w", newline="") as f:
+                f.write("c decoy in the working directory\n")
     top_arg = top_abs if case["top_mode"] == "abs" else os.path.relpath(top_abs, cwd)
     top2 = top_abs if case["top_mode"] == "abs" else os.path.relpath(top_abs, cwd2)
     flat_path = None
@@ -551,6 +594,13 @@ def model_request(case, m):
         if case.get("missing") == n:
             continue
         entries.append((key(posixpath.join(d, n)), file_text(fl)))
+    have = {k for k, _ in entries}
+    for dk, text in (case.get("decoys") or {}).items():
+        k = key(posixpath.join(d, dk))
+        if k not in have:
+            entries.append((k, text))
+    if case.get("cwd_decoy"):
+        entries.append((key(case["cwd_decoy"]), "c decoy in the working directory\n"))
     fs = ",".join(hx(k) + "=" + (hx(v) or "-") for k, v in entries)
     return "readall %d %d %s %s %s" % (case["W"], FUEL, hx(cwd), hx(top_arg), fs)
 
@@ -587,7 +637,12 @@ def corr_equal(model, real, timeout):
         return False          # the model always terminates (C20_terminates): a hang is never matched
     if model["err"] != real["err"]:
         return False
-    return model["message"] == real["message"] and model["title"] == real["title"] and model["ys"] == real["ys"]
+
+    def canon(ys):
+        # which spelling of a path is recorded with an input is not part of the property: compare normalised paths
+        return [None if y is None else [posixpath.normpath(y[0])] + y[1:] for y in ys]
+    return (model["message"] == real["message"] and model["title"] == real["title"]
+            and canon(model["ys"]) == canon(real["ys"]))
 
 
 def sfile_wire(blocks):
